@@ -16,6 +16,8 @@ func schedCoverage(a *schedAgg, wall float64, conc bool) map[string]interface{} 
 		"distinct_runs":        len(a.distinctAll),
 		"plans_by_callers":     a.ByK,
 		"ops_errored":          a.Errored,
+		"evaluations_true":     a.True,
+		"evaluations_false":    a.False,
 		"ops_panicked":         a.Panicked,
 		"simulated_time_steps": a.Steps,
 		"steps_per_hour":       float64(a.Steps) / wall * 3600,
